@@ -512,6 +512,11 @@ int epoll_wait_hook(int epfd, epoll_event* ev, int maxev, int timeout) noexcept 
   }
 }
 
+static long g_io_nth[2] = {-1, -1}, g_io_err[2] = {0, 0}, g_io_count[2] = {0, 0};
+long io_fault(int which) noexcept { long k = g_io_count[which]++; return (k == g_io_nth[which]) ? g_io_err[which] : 0; }
+void set_io_fault(int which, long nth, long err) noexcept { g_io_nth[which] = nth; g_io_err[which] = err; g_io_count[which] = 0; }
+long io_calls(int which) noexcept { return g_io_count[which]; }
+
 Result run(vk::Choice& c, const Options& opts, const std::function<void()>& scenario) {
   g.opt = opts;
   g.res = Result();
